@@ -580,6 +580,14 @@ impl<M: Manager, W: From<Object<M>>> Pool<M, W> {
         #[cfg(deadpool_verif)]
         crate::verif::point("close.resized");
         self.inner.semaphore.close();
+        // `resize(0)` can only release idle objects whose permits it is able
+        // to acquire. Objects whose permit was already handed to a waiting
+        // task or that are being returned right now are still in the queue.
+        let mut slots = self.inner.slots.lock().unwrap();
+        while let Some(mut obj) = slots.vec.pop_front() {
+            slots.size -= 1;
+            self.inner.manager.detach(&mut obj.obj);
+        }
     }
 
     /// Indicates whether this [`Pool`] has been closed.
